@@ -9,6 +9,7 @@
     get_instance, no dependence on uninitialised memory).
 """
 import ast
+from vf import srcnorm as _srcnorm
 import json
 import os
 import warnings
@@ -77,7 +78,7 @@ def gen_facts():
     for path in facts.py_files():
         mod = os.path.relpath(path, REPO)[:-3].replace('/', '.')
         try:
-            tree = ast.parse(open(path).read())
+            tree = _srcnorm.parse_file(path)
         except SyntaxError as ex:
             problems.append(f'{mod}: {ex}')
             continue
